@@ -147,6 +147,21 @@ SPECS = [
          raises={'*': {'ensures': ["raised('e4') or raised('h1') or (repeat_failed() and evals(4) == 1 "
                                    "and holes(1) == 0 and val(4) is not None)"]}},
          serves=PROP + ["C08", "C05"]),
+    dict(id='S-Repeat-indent',
+         # "consecutive repetitions are separated by a line break plus that line's indentation":
+         # the indentation is that of the element's own line, also when the text in front of it
+         # contains an interpolation
+         text='A\n  t${e1}\n    <li tal:repeat="i e4">%s</li>B' % H1,
+         own_names=['i'],
+         loops={1: {
+             'inv': ["local('____index') == rlen() - _i", "S() == acc(_i)", "scope_frame('i')", "in_local('i')"],
+             'lemmas': ["acc(0) == S0() + 'A\\n  t' + ('' if quoted(val(1), '\\0', '&#0;', None, None) is None else piece(quoted(val(1), '\\0', '&#0;', None, None))) + '\\n    '",
+                        "acc(_i + 1) == acc(_i) + '<li>' + out_at(1, _i) + '</li>' + "
+                        "('\\n    ' if _i + 1 < rlen() else '')"],
+         }},
+         ensures=["S() == acc(rlen()) + 'B'"],
+         raises={'*': {'ensures': ["True"]}},
+         serves=["C08"], no_fresh=True, no_token_posts=True),
 ]
 
 CONTRACTS = schema_contracts(SPECS)
